@@ -333,3 +333,65 @@ func TestC10Parent(t *testing.T) {
 	wg.Wait()
 	vWriteJSON(t, "VERIF_OUT", map[string]interface{}{"results": results, "children": children, "good": goodReports})
 }
+
+// Sequences of commands in one session (the single commands above start from a fresh session each): a mapreduce query
+// followed by reads whose reader comes back - a followed file that cannot be decoded (the retry loop of read() runs every
+// 2 s), a follow that stops after max=1 while the file goes on growing, a second map command, a cat after a tail.  The
+// process must survive every sequence (this test runs them in-process: a panic in a server goroutine ends the run and
+// the driver reports the death message).
+func TestC10Sequences(t *testing.T) {
+	vInit("none")
+	config.Server.MaxLineLength = 1024 * 1024
+	dir, _ := os.MkdirTemp("", "c10s-")
+	defer os.RemoveAll(dir)
+	u, _ := user.New("vuser", "harness")
+	cat := make(chan struct{}, 4)
+	tail := make(chan struct{}, 50)
+	plain := filepath.Join(dir, "grow.log")
+	notgz := filepath.Join(dir, "broken.log.gz")
+	os.WriteFile(plain, []byte("INFO|1002-071143|1|x.go:1|8|13|7|0.21|471h0m21s|MAPREDUCE:STATS|a=1\n"), 0644)
+	os.WriteFile(notgz, []byte("this is not gzip data\nline 2\n"), 0644)
+	mapq := "map select count($line),avg(a) from STATS group by $hostname interval 1"
+	seqs := [][]string{
+		{mapq, fmt.Sprintf("tail:quiet=true %s regex:noop ", notgz)},
+		{mapq, fmt.Sprintf("tail:quiet=true:max=1 %s regex:noop ", plain)},
+		{mapq, fmt.Sprintf("tail:quiet=true %s regex:noop ", plain), mapq},
+		{fmt.Sprintf("tail:quiet=true %s regex:noop ", plain), mapq, fmt.Sprintf("cat:quiet=true %s regex:noop ", plain)},
+		{mapq, fmt.Sprintf("cat:quiet=true %s regex:noop ", notgz), fmt.Sprintf("tail:quiet=true %s regex:noop ", filepath.Join(dir, "*.log*"))},
+	}
+	var done []string
+	for si, seq := range seqs {
+		h := NewServerHandler(u, cat, tail)
+		stop := make(chan struct{})
+		go func() { // reader of the session
+			buf := make([]byte, 64*1024)
+			for {
+				select {
+				case <-stop:
+					return
+				default:
+				}
+				if _, err := h.Read(buf); err != nil {
+					return
+				}
+			}
+		}()
+		for _, cmd := range seq {
+			go h.Write(c10Frame(cmd))
+			time.Sleep(150 * time.Millisecond)
+		}
+		// the followed file grows while the session runs; 4.6 s cover two rounds of the 2 s retry loop
+		for k := 0; k < 23; k++ {
+			if f, err := os.OpenFile(plain, os.O_APPEND|os.O_WRONLY, 0644); err == nil {
+				fmt.Fprintf(f, "INFO|1002-071143|1|x.go:1|8|13|7|0.21|471h0m21s|MAPREDUCE:STATS|a=%d\n", k)
+				f.Close()
+			}
+			time.Sleep(200 * time.Millisecond)
+		}
+		h.Shutdown()
+		close(stop)
+		time.Sleep(300 * time.Millisecond)
+		done = append(done, fmt.Sprintf("sequence %d survived", si+1))
+	}
+	vWriteJSON(t, "VERIF_OUT", map[string]interface{}{"sequences": len(seqs), "done": done})
+}
